@@ -122,6 +122,34 @@ def fn_body(src, name):
     return None
 
 
+def cond_depth(body, pos):
+    """number of CONDITIONAL blocks (if / else / match arm / loop / closure) enclosing body[pos]; plain scoping
+    blocks, struct literals and `let x = { .. }` do not count"""
+    stack = []
+    seg_start = 0
+    for i, ch in enumerate(body[:pos]):
+        if ch == "{":
+            header = body[seg_start:i].strip()
+            # the statement this block belongs to starts after the last ';' / '}' / '{'
+            header = re.split(r"[;{}]", header)[-1].strip()
+            is_cond = bool(re.match(r"(if|else|match|for|while|loop)\b", header)) or header.endswith("=>") or \
+                bool(re.search(r"\|[^|]*\|\s*$", header)) or bool(re.search(r"\belse\s*$", header)) or \
+                bool(re.search(r"\bif\b[^;]*$", header) and not re.search(r"=\s*$", header) and re.match(r"(let\s+\w+[^=]*=\s*)?if\b", header) is not None)
+            stack.append(is_cond)
+            seg_start = i + 1
+        elif ch == "}":
+            if stack:
+                stack.pop()
+            seg_start = i + 1
+        elif ch == ";":
+            seg_start = i + 1
+    # the outermost '{' is the function body itself
+    return sum(1 for c in stack[1:] if c)
+
+
+COND = {}
+
+
 def skeleton(path, fn):
     src = strip_comments(open(os.path.join(IX, path)).read())
     body = fn_body(src, fn)
@@ -137,6 +165,7 @@ def skeleton(path, fn):
     for pos, e in ev:
         if not out or out[-1] != (pos, e):
             out.append((pos, e))
+    COND[(path, fn)] = [cond_depth(body, pos) for pos, _ in out]
     return [e for _, e in out]
 
 
@@ -273,6 +302,9 @@ def main():
         else:
             items = ", ".join(lean_ev(e) for e in sk)
         lines.append(f"def {name} : List Ev := [{items}]")
+        conds = COND.get((path, fn), [])
+        lines.append(f"/-- how many conditional blocks (if / else / match arm / loop / closure) enclose each of the calls above -/")
+        lines.append(f"def {name}_cond : List Nat := [{', '.join(map(str, conds))}]")
         names.append(name)
     lines += vault_uses()
     lines += ["", "end Mfi.Gen.Skel", ""]
